@@ -17,31 +17,31 @@ CHECKS = {
    note="Broker respects the client's advertised Receive Maximum and Maximum Packet Size; acknowledgements left unsent/unflushed on a dead transport may or may not be repeated on the next one.", ref="4/C04"),
  "C05": dict(cat="exploration", tech="stateful property-based testing over connection sequences + decoded CONNECT / replay oracle",
    text="2-8 connections with arbitrary legal session-present answers and failed handshakes in between; CONNECT flags/client id, ConnectEvent, replay-before-new-packet and discard-on-fresh-session rules checked on the wire and through handles.",
-   note="Same assumptions as C01; a protocol-violating CONNACK makes the next clean-start value unspecified (not generated here).", ref="4/C05"),
+   note="Same assumptions as C01. Handshake outcomes include well-framed success CONNACKs that the client rejects while reading the properties (Receive Maximum 0, Maximum QoS 3): connect() fails and the session must be untouched.", ref="4/C05"),
  "C06": dict(cat="exploration", tech="stateful property-based testing + counting invariant",
    text="Small Receive Maximum values with QoS 1/2 mixes, ack timing and reconnects; at every completed QoS>0 PUBLISH the number of unresolved publishes sent on that connection must not exceed the CONNACK's Receive Maximum; refused publishes leave nothing on the wire.",
-   note="Receive Maximum is constant within one case (one broker). Counting uses the per-connection reading of MQTT 5 section 4.9, which is the weaker (sound) one.", ref="4/C06"),
+   note="Receive Maximum belongs to each CONNACK and differs between the connections of a case in 40 % of the cases; retransmissions may then wait for room in a smaller window (accepted, never required). Counting uses the per-connection reading of MQTT 5 section 4.9, which is the weaker (sound) one. Rule accepted-beyond-window: a QoS 1/2 publish that returns a handle while the model counts >= Receive Maximum unresolved publishes.", ref="4/C06"),
  "C07": dict(cat="exploration", tech="property-based testing with a wrap-reaching generator (identifier burn) + in-flight-set invariant",
    text="Cases fill the send window with long-lived QoS 1/2 publishes and SUBSCRIBE/UNSUBSCRIBE, burn 65535*w+offset identifier allocations through locally refused publishes so the 16-bit counter lands on/around identifiers still in use, then issue new operations; every identifier-bearing packet must carry a non-zero id outside the model's in-flight set.",
-   note="The burn relies on refused requests consuming identifiers (stated in the property); if a refactor changes that the non-trivial count drops instead of an alarm being raised.", ref="4/C07"),
+   note="The burn relies on refused requests consuming identifiers (stated in the property); if a refactor changes that the non-trivial count drops instead of an alarm being raised. A second generator covers identifiers across 2-6 connections with failed handshakes in between.", ref="4/C07"),
  "C08": dict(cat="exploration", tech="exhaustive short-input enumeration + grammar-based generation with single-point mutations + coverage-guided fuzzing (libFuzzer, thorough tier), three-valued reference classifier as oracle",
    text="Every byte string of length 1-2 (thorough: 3), 256 first bytes x 20 remaining-length forms x 8 bodies, every server packet type in every legal encoding plus one mutation, and saved fuzzer inputs are fed before and after CONNACK into a session with one in-flight operation of every kind under generated read chunking. VALID => exact API effect; MALFORMED => InvalidPacket, dead handle, nothing acted upon; any panic/overflow is a violation.",
    note="Lazily decoded property contents outside CONNACK and broker protocol errors (ack of the wrong kind, CONNACK after handshake, AUTH) are UNSPECIFIED and not judged.", ref="4/C08"),
  "C09": dict(cat="exploration", tech="round-trip against an independent MQTT 5 decoder over generated configurations and requests (property-based)",
    text="Generated configurations and requests (all property kinds/combinations, subscription options, remaining lengths on the 128/16384/2097152 boundaries, fields > 65535 bytes, too-small arenas); the strict reference decode of the captured bytes must equal the request field by field; unencodable requests fail with zero I/O; encodable ones with ample resources succeed.",
-   note="Property lists are compared as multisets (the API does not fix the position of correlate()).", ref="4/C09"),
+   note="Property lists are compared as multisets (the API does not fix the position of correlate()). A second generator (histories with partial acknowledgement and resumed reconnects) checks that every retransmission still decodes to its request.", ref="4/C09"),
  "C10": dict(cat="exploration", tech="property-based testing on a virtual clock owned by the harness (embassy-time driver) + timestamp oracle",
    text="Keep-alive values incl. 0/1/2..65535 and Server Keep Alive overrides; the application sits in poll() while virtual time jumps to the client's own deadlines (plus generated executor latency) and to scheduled inbound arrivals; PINGRESP delays around the 5 s bound incl. never. Gaps between completed client packets <= effective keep-alive, no ping at keep-alive 0, dead peer detected at the bound (not earlier, not later than injected latency), timely PINGRESP never disconnects.",
-   note="Writes complete instantly; a PINGRESP readable exactly at the bound (or within injected latency after it) is unspecified. Known finding: keep-alive < 5 s with a PINGRESP later than the keep-alive.", ref="4/C10"),
+   note="Writes complete instantly; a PINGRESP readable exactly at the bound (or within injected latency after it) is unspecified. 40 % of the cases start with an earlier connection of the same session (own Server Keep Alive, possibly abandoned with a PINGREQ queued); the last connection is judged, its effective keep-alive being the Server Keep Alive of its CONNACK, else the value in its CONNECT. Known finding: keep-alive < 5 s with a PINGRESP later than the keep-alive.", ref="4/C10"),
  "C11": dict(cat="fault_enumeration", tech="fault injection at generated I/O-call indices + sticky-death invariant",
    text="Faults (read error, EOF, write error, flush error, broker DISCONNECT, local disconnect) at generated I/O calls followed by further API calls on the same handle; after death every op fails fast with Disconnected and the transport poll counter must not move.",
-   note="Death triggers are the results listed in the property; NotReady/InvalidRequest/Rejected/resource errors are not triggers.", ref="4/C11"),
+   note="Death triggers are the results listed in the property, plus: an operation that read a broker DISCONNECT and returned any error. NotReady/InvalidRequest/Rejected/resource errors alone are not triggers.", ref="4/C11"),
  "C12": dict(cat="exploration", tech="stateful property-based testing of arbitrary failure prefixes + differential twin (brand-new session)",
    text="Arbitrary generated history (faults, cancellations, 25% failed handshakes of all kinds, leaked handles, small buffers, arena-filling payloads) followed by connect() over a healthy transport to a conformant broker: must succeed whenever a brand-new session of the same configuration can, start with a complete CONNECT, parse cleanly, and pass a usability probe with results identical to the twin.",
    note="Known finding: CONNECT does not fit behind retained packets in a nearly full arena (BufferTooSmall forever). Receive buffers below 12 bytes cannot complete a subscribe at all and are excluded.", ref="4/C12"),
  "C13": dict(cat="exploration", tech="metamorphic / differential testing over every (operation, await point) pair (counted, then enumerated or sampled)",
    text="Program with a reactive broker on a pend-first 1-byte-write transport; await points counted in an uncancelled run; each operation dropped at each await point (all when <= budget) and the connection driven to idle; request packets, PUBRELs, answers to broker publishes, delivered messages and final quiescence must equal the uncancelled twin, or the twin without the operation when it left no trace.",
-   note="QoS 0 publish is documented as not cancel-safe and never cancelled. Known finding: disconnect() dropped after some of its bytes were accepted.", ref="4/C13"),
+   note="QoS 0 publish (also one that auto-downgrade produced) is documented as not cancel-safe and never cancelled. Pairs of cancellations are compared against the four with/without twins. Programs that disconnect without draining are compared by a prefix rule on the request stream. Known finding: disconnect() dropped after some of its bytes were accepted.", ref="4/C13"),
  "C14": dict(cat="exploration", tech="boundary-swept property-based testing with a reference length oracle (both directions)",
    text="Broker maxima 2..299 (and absent) with request lengths limit-3..limit+3 for every request kind, mandatory acks that may not fit, replay under a smaller later maximum, inbound packets of rx-1/rx/rx+1/huge declared bytes; refused iff the reference-encoded length exceeds the maximum, refusals leave no trace, nothing oversize is ever transmitted, oversize inbound ends the connection cleanly.",
    note="Maximum of exactly 4 leaves the ack outcome unspecified; behaviour of requests while a retained packet exceeds a later smaller maximum is unspecified beyond 'not transmitted'.", ref="4/C14"),
@@ -53,10 +53,10 @@ CHECKS = {
    note="Unbounded liveness cannot be decided by testing; the bounded form is what is claimed. Same known finding as C12.", ref="4/C16"),
  "C17": dict(cat="exploration", tech="long-history property-based testing + byte-identity invariant + differential capacity probe against a fresh twin",
    text="Long histories on arenas of 36..4095 bytes with all ack orders, arena-filling payloads, QoS 0 and CONNECT traffic, reconnects; every retransmission must equal the first transmission except the DUP bit, and after draining a probe sweep (size ladder for QoS 0/1/2, slot counts) must give exactly the results of a brand-new session of the same build.",
-   note="The twin is the same build, so local constants are never baked into the oracle.", ref="4/C17"),
+   note="The twin is the same build, so local constants are never baked into the oracle. In half of the cases whose last connection survives the probe sweep runs on that same connection (a reconnect re-packs the arena).", ref="4/C17"),
  "C18": dict(cat="exploration", tech="model-based property testing of handle predicates sampled after every step",
    text="All op kinds, ack orders, reason codes and reconnect patterns; is_pending/is_complete/is_invalidated sampled after every step and compared with the model; failing acks must surface as Rejected(code) from the consuming op.",
-   note="Handle-to-packet association is derived from the wire (last matching packet first transmitted during the op that returned the handle).", ref="4/C18"),
+   note="Handle-to-packet association is derived from the wire per class of identical requests (acceptance order, accepted requests first); the status of a handle whose request has a cancelled identical twin is not judged.", ref="4/C18"),
  "C19": dict(cat="exploration", tech="exhaustive table enumeration against an MQTT 5 legality oracle (three-valued)",
    text="Exhaustive: 4 request contexts x 27 property kinds x boundary values x 4 session states, will x 27 kinds, empty topic lists, dead handle, Maximum QoS x requested QoS x downgrade flag (2562 cells). MUST_REJECT cells: documented error, no I/O, observable state unchanged; MUST_ACCEPT cells: Ok and the property decodes from the wire.",
    note="Legality table written from the MQTT 5 specification; three cells classes are UNSPECIFIED and not judged (Topic Alias > 0, Server Reference on client DISCONNECT, empty/wildcard Response Topic).", ref="4/C19"),
